@@ -7,6 +7,11 @@ ids = [p['id'] for p in props]
 
 # id -> (category, technique, level text, level note, design ref)
 CHECKS = {
+ 'C01': ('model_checking',
+         'exhaustive small-scope input enumeration of the real selection code and send/late-lock/invoice paths against an arithmetic reference model',
+         'Every wallet of <=3 (quick) / <=4 (thorough) outputs over a 5-value alphabet x every critical amount (each subset sum minus each reachable fee minus 0..n^2+1, plus numeric-limit values) x change counts {0..4} x max_outputs {0,1,2,3,500} x both strategies x amount-includes-fee, and every assignment of 10 eligibility classes to 3 outputs x min_conf {0,1,10}, is run through the real select_send_tx on a real LMDB wallet; a sub-grid runs through owner::init_send_tx (plain, late-lock+finalize, estimate) and process_invoice_tx. Oracle: inputs are spendable records of the account, sum(inputs) = amount + fee + change, fee >= network minimum, no panic, no livelock (backend call budget), nothing persisted on error.',
+         'Fee base 1 so that fees are commensurate with the value alphabet; API paths use a stub node that agrees with the records as written. Small-scope hypothesis beyond 3/4 outputs.',
+         'DESIGN.md §3 C01'),
  'C19': ('model_checking',
          'exhaustive small-scope input enumeration of the real query path against a reference filter',
          'Every query of a stated finite space (all single fields, all pairs, full flag product, sort x order x limit x every single filter; thorough: all triples and pairs x sort/limit) is executed through owner::retrieve_txs on a real LMDB wallet holding two discriminating 11-entry, 3-account logs and compared with a reference filter written from the field documentation (MUST <= result <= MAY, order, limit-as-prefix). Exhaustive within that scope; nothing sampled.',
